@@ -3,9 +3,10 @@
 Tracing programs (every rule prints its own id and the bindings the statement promises) are run over
 generated configurations files x values x selectors; the expected trace is computed from the
 configuration alone by `expected()` below, a direct transcription of the documented schedule."""
-import json
+import json, os, shutil, subprocess, tempfile
+from concurrent.futures import ThreadPoolExecutor
 from framework import Check, Case
-from jqlib import run_case
+from jqlib import run_case, JQAWK, BUILD
 import pyref
 
 INVALID = object()
@@ -300,14 +301,20 @@ def seen_by_patterns(cfg):
     return out
 
 
-def gen_config(rng, k):
+def gen_config(rng, k, names=None):
+    """names: the input file names to use (any strings; two names that denote the same path share their values)"""
     mode = rng.choice(["arrays", "arrays", "objects", "mixed"])
-    nfiles = rng.choice([0, 1, 1, 2, 2, 3])
-    names = rng.sample(FILE_NAMES, nfiles)
+    if names is None:
+        nfiles = rng.choice([0, 1, 1, 2, 2, 3])
+        names = rng.sample(FILE_NAMES, nfiles)
     files = []
+    held = {}
     for n in names:
-        nv = rng.choice([0, 1, 1, 2, 3])
-        files.append((n, [rand_value(rng, mode) for _ in range(nv)]))
+        key = os.path.normpath(n)
+        if key not in held:
+            nv = rng.choice([0, 1, 1, 2, 3])
+            held[key] = [rand_value(rng, mode) for _ in range(nv)]
+        files.append((n, held[key]))
     allvals = [v for _, vs in files for v in vs]
     sels = []
     for _ in range(rng.choice([0, 0, 1, 2])):
@@ -386,6 +393,48 @@ def activations(cfg, rule):
     return sum(1 for l in exp.splitlines() if l == rid or l.startswith(rid + " "))
 
 
+# ------------------------------------------------------------------ the real binary: input file NAMES
+# "for each file in the order given ... with $file naming the current file": a name is a name, whatever characters it is made of.
+# Every name of this pool exists as a file in the scratch directory of every run (the ones not on the command line as decoys that
+# hold a value of their own), so that a name read as a wildcard pattern, as an option, trimmed, unquoted, or resolved to another
+# file than the one it spells shows in the trace: glob metacharacters (with files around that the pattern would match, and
+# that it would not), spaces, leading dashes, names that are prefixes of each other, two spellings of one path, shell syntax.
+HOSTILE = ["shard[2].json", "shard2.json", "a*.json", "a1.json", "ab.json", "a.json", "b.json", "c.json", "?.json", "x.json", "[ab].json",
+           "[!a].json", "[^a].json", "[a-c].json", "*", "?", "[", "]", "[]", "[a-c]", "a", "b", "ab", "abc", "a.json.bak", "a.jso", "*.json", "**",
+           "a**json", "a?.json", "data 1.json", "data ?.json", "data *.json", " lead.json", "trail.json ", "two  spaces.json",
+           "-dash.json", "--", "-", "-o", "-r", "-f", "--version", "-x*.json",
+           "d/x.json", "d/y.json", "d/*.json", "d/[x].json", "[d]/x.json", "./a.json", "d/../a.json", "d//x.json", "a\\*.json", "\\a.json",
+           "a\\.json", "<stdin>", "\u00e9*.json", "\u00e91.json", "{a,b}.json", "~", "$HOME", "a.json;b.json", "'q'.json", "\"dq\".json", "a.json b.json",
+           "%s.json", "a.json,b.json", "#c.json", "a.JSON", "A.json"]
+
+
+def cli_scenario(rng, k):
+    n = rng.choice([1, 2, 2, 3, 3, 4])
+    how = rng.random()
+    if how < 0.3:
+        # a name with a metacharacter next to names it would match as a pattern
+        group = rng.choice([["shard[2].json", "shard2.json"], ["a*.json", "a1.json", "ab.json", "a.json"], ["?.json", "x.json", "a.json"],
+                            ["[ab].json", "a.json", "b.json"], ["*", "a", "b"], ["d/*.json", "d/x.json", "d/y.json"], ["data ?.json", "data 1.json"],
+                            ["a\\*.json", "a*.json", "a1.json"], ["[a-c]", "a", "b"], ["*.json", "a.json", "x.json"], ["a?.json", "ab.json", "a1.json"],
+                            ["[!a].json", "b.json", "x.json"], ["[d]/x.json", "d/x.json"], ["\u00e9*.json", "\u00e91.json"], ["-x*.json", "-dash.json"]])
+        names = [rng.choice(group) for _ in range(n)]
+        if rng.random() < 0.7:
+            names[0] = group[0]
+    elif how < 0.45:
+        # names that are prefixes / spellings of each other
+        group = rng.choice([["a", "ab", "abc", "a.json", "a.jso", "a.json.bak"], ["a.json", "./a.json", "d/../a.json"], ["d/x.json", "d//x.json"],
+                            ["a.json", "a.JSON", "A.json"], ["a.json b.json", "a.json", "b.json"], ["a.json;b.json", "a.json,b.json", "a.json"]])
+        names = [rng.choice(group) for _ in range(n)]
+    else:
+        names = [rng.choice(HOSTILE) for _ in range(n)]
+    if n >= 2 and rng.random() < 0.25:
+        names[rng.randrange(1, n)] = names[0]           # the same file given twice
+    while True:
+        cfg = gen_config(rng, k, names)
+        if any(r["kind"] in ("BF", "P", "EF") and not r["bodyless"] for r in cfg["rules"]):
+            return cfg
+
+
 class C02(Check):
     pid = "C02"
     props = ["C02_schedule.v"]
@@ -395,6 +444,9 @@ class C02(Check):
             "roots; patterns whose value is a regex, string, number, array, object, function, null or unset whatever $ is (truthiness decides, "
             "over string elements too); BEGIN/END/ENDFILE rules that assign to $ after tracing it, followed by further rules of the same kind; "
             "expected trace computed from the configuration by a Python transcription of the documented schedule; "
+            "the same kind of configuration through the real binary in a scratch directory with 1-4 input files whose NAMES are hostile "
+            "(glob metacharacters next to files the name would match as a pattern, spaces, leading dashes, option look-alikes, names "
+            "that are prefixes or other spellings of each other, shell syntax, the same file twice), program inline / -f / after --; "
             "non-trivial = at least two rule kinds and at least two executed activations")
 
     def generate(self, rng, tier):
@@ -416,6 +468,26 @@ class C02(Check):
                     "files": [[name, b"".join(ch).decode()] for name, ch, _ in files],
                     "expected": exp}
             cases.append(Case(cid, run_case(cid, prog, files, sels, True), meta, nontrivial))
+        # ---- the real binary with hostile input file names (run in extra(); the same configuration also as a library case)
+        self.cli = []
+        for k in range(400 if tier == "quick" else 6000):
+            cfg = cli_scenario(rng, k)
+            prog = program_text(cfg, rng)
+            texts = {}
+            for name, values in cfg["files"]:
+                texts.setdefault(os.path.normpath(name), stream_text(values, rng))
+            sels = [sel_text(p) for p in cfg["selectors"]]
+            exp = expected(cfg)
+            names = [name for name, _ in cfg["files"]]
+            forms = ["file", "ddash", "inline-ddash"] + (["inline"] if not prog.startswith("-") and prog != "" else [])
+            if names[0].startswith("-"):
+                forms.remove("file")
+            form = rng.choice(forms)
+            cid = "n%d" % k
+            meta = {"prog": prog, "selectors": sels, "files": [[name, texts[os.path.normpath(name)]] for name in names], "expected": exp, "form": form}
+            self.cli.append(Case(cid + "!", None, dict(meta, role="the jqawk binary in a scratch directory"), True, ("cli",)))
+            files = [(name, [texts[os.path.normpath(name)].encode()], False) for name in names]
+            cases.append(Case(cid, run_case(cid, prog, files, sels, True), dict(meta, role="library run"), True))
         return cases
 
     def oracle(self, case, impl):
@@ -433,6 +505,74 @@ class C02(Check):
             return ("schedule differs at trace line %d: documented %r, implementation %r (outcome %s, %d/%d lines)"
                     % (i + 1, w[i] if i < len(w) else "<end>", g[i] if i < len(g) else "<end>", got[0], len(g), len(w)))
         return None
+
+
+    # ---------------------------------------------------------------- the binary
+    def run_cli_names(self, d, case):
+        m = case.meta
+        wd = tempfile.mkdtemp(prefix="n", dir=d)
+        try:
+            used = {os.path.normpath(name): text for name, text in m["files"]}
+            for name in HOSTILE:
+                key = os.path.normpath(name)
+                p = os.path.join(wd, key)
+                if os.path.dirname(key):
+                    os.makedirs(os.path.dirname(p), exist_ok=True)
+                with open(p, "wb") as f:
+                    f.write(used[key].encode() if key in used else json.dumps(["decoy: the file named " + key]).encode() + b"\n")
+            with open(os.path.join(wd, "prog.jqawk"), "wb") as f:
+                f.write(m["prog"].encode())
+            args = [JQAWK]
+            for s in m["selectors"]:
+                args += ["-r", s]
+            form = m["form"]
+            if form == "file":
+                args += ["-f", "prog.jqawk"]
+            elif form == "ddash":
+                args += ["-f", "prog.jqawk", "--"]
+            elif form == "inline-ddash":
+                args += ["--", m["prog"]]
+            else:
+                args.append(m["prog"])
+            args += [name for name, _ in m["files"]]
+            try:
+                p = subprocess.run(args, cwd=wd, stdin=subprocess.DEVNULL, stdout=subprocess.PIPE, stderr=subprocess.PIPE, timeout=10)
+            except subprocess.TimeoutExpired:
+                return None
+            return p.returncode, p.stdout, p.stderr, args[1:]
+        finally:
+            shutil.rmtree(wd, ignore_errors=True)
+
+    def extra(self, ctx):
+        viol, stats = [], {"binary_runs": 0, "binary_timeouts": 0}
+        cli = getattr(self, "cli", [])
+        if not cli:
+            return viol, stats
+        os.makedirs(BUILD, exist_ok=True)
+        d = tempfile.mkdtemp(prefix="c02-", dir=BUILD)
+        try:
+            with ThreadPoolExecutor(max_workers=8) as ex:
+                results = list(ex.map(lambda c: self.run_cli_names(d, c), cli))
+        finally:
+            shutil.rmtree(d, ignore_errors=True)
+        for c, r in zip(cli, results):
+            if r is None:
+                stats["binary_timeouts"] += 1
+                continue
+            stats["binary_runs"] += 1
+            rc, out, err, argv = r
+            want = c.meta["expected"].encode()
+            if rc == 0 and out == want:
+                continue
+            w, g = want.decode("utf-8", "replace").splitlines(), out.decode("utf-8", "replace").splitlines()
+            i = 0
+            while i < len(w) and i < len(g) and w[i] == g[i]:
+                i += 1
+            why = ("jqawk binary, input files %r: trace differs at line %d: documented %r, binary %r (exit status %d, stderr %r)"
+                   % ([n for n, _ in c.meta["files"]], i + 1, w[i] if i < len(w) else "<end>", g[i] if i < len(g) else "<end>", rc,
+                      err.decode("utf-8", "replace")[:200]))
+            viol.append((Case(c.id, None, dict(c.meta, argv=argv), True, c.tags), why))
+        return viol[:5], stats
 
 
 CHECK = C02()
